@@ -34,3 +34,27 @@ wchar_t *wmemcpy(wchar_t *d, const wchar_t *s, size_t n){ size_t i; for (i = 0; 
 wchar_t *wmemset(wchar_t *d, wchar_t c, size_t n){ size_t i; for (i = 0; i < n; i++) d[i] = c; return d; }
 int wmemcmp(const wchar_t *a, const wchar_t *b, size_t n){ size_t i; for (i = 0; i < n; i++) if (a[i] != b[i]) return a[i] < b[i] ? -1 : 1; return 0; }
 int abs(int x){ return x < 0 ? -x : x; }
+/* <ctype.h> / <wctype.h> in the "C" locale as loop-free pure functions (the library IR is compiled with -D__NO_CTYPE so that glibc's
+ * table macros become calls); values outside unsigned char / EOF are undefined behaviour in C - classified as "no" here */
+int isdigit(int c){ return c >= '0' && c <= '9'; }
+int isupper(int c){ return c >= 'A' && c <= 'Z'; }
+int islower(int c){ return c >= 'a' && c <= 'z'; }
+int isalpha(int c){ return (c >= 'A' && c <= 'Z') || (c >= 'a' && c <= 'z'); }
+int isalnum(int c){ return (c >= '0' && c <= '9') || (c >= 'A' && c <= 'Z') || (c >= 'a' && c <= 'z'); }
+int isxdigit(int c){ return (c >= '0' && c <= '9') || (c >= 'A' && c <= 'F') || (c >= 'a' && c <= 'f'); }
+int isspace(int c){ return c == ' ' || (c >= 9 && c <= 13); }
+int isblank(int c){ return c == ' ' || c == 9; }
+int iscntrl(int c){ return (c >= 0 && c < 32) || c == 127; }
+int isprint(int c){ return c >= 32 && c < 127; }
+int isgraph(int c){ return c > 32 && c < 127; }
+int ispunct(int c){ return c > 32 && c < 127 && !((c >= '0' && c <= '9') || (c >= 'A' && c <= 'Z') || (c >= 'a' && c <= 'z')); }
+int tolower(int c){ return (c >= 'A' && c <= 'Z') ? c + 32 : c; }
+int toupper(int c){ return (c >= 'a' && c <= 'z') ? c - 32 : c; }
+int iswdigit(unsigned c){ return c >= '0' && c <= '9'; }
+int iswupper(unsigned c){ return c >= 'A' && c <= 'Z'; }
+int iswlower(unsigned c){ return c >= 'a' && c <= 'z'; }
+int iswalpha(unsigned c){ return (c >= 'A' && c <= 'Z') || (c >= 'a' && c <= 'z'); }
+int iswalnum(unsigned c){ return (c >= '0' && c <= '9') || (c >= 'A' && c <= 'Z') || (c >= 'a' && c <= 'z'); }
+int iswxdigit(unsigned c){ return (c >= '0' && c <= '9') || (c >= 'A' && c <= 'F') || (c >= 'a' && c <= 'f'); }
+unsigned towlower(unsigned c){ return (c >= 'A' && c <= 'Z') ? c + 32 : c; }
+unsigned towupper(unsigned c){ return (c >= 'a' && c <= 'z') ? c - 32 : c; }
